@@ -56,8 +56,45 @@ func vfNewNode(w *vfWorld, name, router string, opts ...Option) (*vfNode, error)
 func (n *vfNode) id() peer.ID { return n.h.ident.id }
 
 // eval runs f inside the node's event loop (a consistent snapshot point).
+// vfLoopStallAfter: how long (virtual time) the harness waits for the event loop to take a request before it calls
+// the loop stalled. Nothing in the library parks the loop for longer than a write deadline (30 s); the harness itself
+// never asks while it has parked the loop.
+const vfLoopStallAfter = 30 * time.Minute
+
+// eval runs f inside the node's event loop. A loop that does not take the request within vfLoopStallAfter of virtual
+// time is stuck for good (blocked on something only the loop itself could release): the execution ends with a panic
+// that names the condition, which the driver attributes to the history in flight like any other crash of the node.
 func (n *vfNode) eval(f func()) bool {
-	return n.ps.syncEval(f) == nil
+	done := make(chan struct{})
+	fn := func() {
+		defer close(done)
+		f()
+	}
+	t := time.NewTimer(vfLoopStallAfter)
+	defer t.Stop()
+	select {
+	case n.ps.eval <- fn:
+	case <-n.ps.ctx.Done():
+		return false
+	case <-t.C:
+		panic(fmt.Sprintf("vf: the node's event loop is stalled: it has not taken a request for %v of virtual time\n%s", vfLoopStallAfter, vfLoopStack()))
+	}
+	select {
+	case <-done:
+	case <-n.ps.ctx.Done():
+		return false
+	}
+	return true
+}
+
+// vfLoopStack returns the stack of the event loop goroutine (for the stall report).
+func vfLoopStack() string {
+	for _, g := range vfBubbleGoroutines() {
+		if strings.Contains(g, "(*PubSub).processLoop") {
+			return g
+		}
+	}
+	return "(event loop goroutine not found)"
 }
 
 func (n *vfNode) label(p unsafe.Pointer, name string) { n.labels[p] = name }
